@@ -1700,6 +1700,12 @@ def real_samples(
             else:
                 max_value = dtype(min_pos_value)
 
+    # a zero bound takes the sign of the side the samples lie on
+    if min_value == 0 and max_value > 0:
+        min_value = dtype(0)
+    if max_value == 0 and min_value < 0:
+        max_value = -dtype(0)
+
     if min_value == max_value:
         return numpy.array([min_value], dtype=dtype)
 
